@@ -348,6 +348,50 @@ func lattice3(r *vlib.Run) {
 			c.Sample("random-lattice", 1, map[string]interface{}{"dims": dims, "method": m.name, "pattern": vlib.PatternString(pat, dims)})
 		}
 	})
+	// lattices several hundred samples long on one axis, mostly empty with a few clusters whose
+	// position along the long axis is arbitrary (any internal span or block width of a scanner is
+	// crossed somewhere)
+	r.Section("mc.wide", r.N(16, 300), vlib.SectionOpts{}, func(c *vlib.Case) {
+		rng := c.Rng
+		long := 260 + rng.Intn(330)
+		dims := [3]int{long, 3, 3 + rng.Intn(2)}
+		ax := 0
+		if c.Index%8 == 2 {
+			dims, ax = [3]int{dims[1], long, dims[2]}, 1
+		} else if c.Index%8 == 3 {
+			dims, ax = [3]int{dims[1], dims[2], long}, 2
+		}
+		pat := make([]bool, dims[0]*dims[1]*dims[2])
+		fill := func(start, length int, dens float64, solidFront bool) {
+			for z := 0; z < dims[2]; z++ {
+				for y := 0; y < dims[1]; y++ {
+					for x := 0; x < dims[0]; x++ {
+						l := [3]int{x, y, z}[ax]
+						if l >= start && l < start+length && l < long && (rng.Float64() < dens || (solidFront && l == start)) {
+							pat[(z*dims[1]+y)*dims[0]+x] = true
+						}
+					}
+				}
+			}
+		}
+		// content whose first layer sits on sample 128, 256 or 512 of the long axis (pattern index
+		// + 1 is the sample index) after a long empty run, and content at arbitrary places
+		s0 := []int{256, 256, 128, 512, 64}[rng.Intn(5)]
+		if s0+2 >= long {
+			s0 = 256
+		}
+		first := s0 - 1 // pattern index of sample s0
+		if rng.Intn(5) == 0 {
+			first -= 1 + rng.Intn(2)
+		}
+		fill(first, 2+rng.Intn(12), 0.4+0.6*rng.Float64(), true)
+		for k := rng.Intn(3); k > 0; k-- {
+			fill(first+20+rng.Intn(long-first-20), 1+rng.Intn(20), 0.3+0.7*rng.Float64(), false)
+		}
+		m := ms[rng.Intn(len(ms))]
+		runPacked(c, "wide", [][]bool{pat}, dims, []method{ms[0], m})
+		c.Max("mc.wide.longest_axis", float64(long))
+	})
 	// coarse-to-fine on smooth solids (lattice solids violate its documented precondition)
 	r.Section("mc.c2f", r.N(12, 100), vlib.SectionOpts{}, func(c *vlib.Case) {
 		rng := c.Rng
